@@ -167,6 +167,11 @@ def finish(mod, prop, tier, seed, m, wall, write_evidence, quiet) -> int:
         inconclusive.append("an ambient monitor crashed: " + " | ".join(n for n in m["notes"] if "monitor crashed" in n)[:800])
     thresholds = getattr(mod, "THRESHOLDS", {}).get(tier, {})
     for key, mn in thresholds.items():
+        if "?" in key:
+            # "<what>?<flag>": enforced only when the tally <flag> is positive (e.g. a probe on a private helper could be attached)
+            key, flag = key.split("?", 1)
+            if m["tallies"].get(flag, 0) <= 0:
+                continue
         if key == "__evaluations__":
             got = m["evaluations"]
         elif key == "__distinct__":
@@ -181,8 +186,9 @@ def finish(mod, prop, tier, seed, m, wall, write_evidence, quiet) -> int:
     for key, v in m["tallies"].items():
         if key.startswith("timeout:"):
             inconclusive.append(f"per-call watchdog fired {v}x: {key[8:]} (a call did not return within its generous wall-clock budget)")
-    if m["tallies"].get("anchor-unresolvable"):
-        inconclusive.append("anchor not resolvable: " + " | ".join(n for n in m["notes"] if n.startswith("anchor"))[:600])
+    # anchored functions that no longer exist under their old name (e.g. a private helper removed by a refactoring) only cost
+    # the coverage figures for that function; the oracles judge behaviour at public observation points.  Reported, not judged.
+    anchors_unresolved = sorted({n.split(" not resolvable")[0].replace("anchor ", "") for n in m["notes"] if n.startswith("anchor ") and "not resolvable" in n})
 
     replays = []
     if unlisted:
@@ -209,6 +215,7 @@ def finish(mod, prop, tier, seed, m, wall, write_evidence, quiet) -> int:
         tallies=dict(sorted(m["tallies"].items())),
         anchor_hits=m["anchor_hits"],
         anchor_lines=m["anchor_lines"],
+        anchors_unresolved=anchors_unresolved,
         thresholds=thresholds,
         verdict=("violated" if unlisted else ("inconclusive" if inconclusive else "held-on-observed")),
         inconclusive_reasons=inconclusive,
